@@ -23,6 +23,9 @@ for name in sorted(os.listdir(os.path.join(VERIF, "seeded"))):
         demo = (r.get("demo_exit_patched"), r.get("demo_exit_unchanged"))
     except Exception:
         got, demo = "tool-error", None
+    if e.get("superseded"):
+        # the change relied on a defect of /repo that a later 'fix:' commit removed: it no longer applies or no longer manifests
+        want, got = "superseded", ("superseded" if (not r.get("patch_applies") or r.get("demo_exit_patched") == 0) else got)
     ok = (got == want)
     bad += 0 if ok else 1
     line = "%-12s check=%s %-8s exit=%s expected=%s demo(with,without)=%s %s %.0fs" % (name, chk, tier, got, want, demo, "ok" if ok else "MISMATCH", time.time() - t0)
